@@ -30,6 +30,7 @@ class V:
     rule: Optional[str] = None  # expected rule prefix for break variants
     more: tuple = ()  # further (file, old, new) edits applied together
     pos: Optional[tuple] = None  # (lineno, col, end_lineno, end_col) of `old` in the current source (computed variants)
+    patch: Optional[str] = None  # a unified diff applied as a whole (stored seeded changes / refactorings): hunks need not be unique text, new files allowed
 
 
 def _offset(src: str, line: int, col: int) -> int:
@@ -37,7 +38,37 @@ def _offset(src: str, line: int, col: int) -> int:
     return sum(len(l) + 1 for l in lines[: line - 1]) + len(lines[line - 1].encode("utf-8")[:col].decode("utf-8", "ignore"))
 
 
+def overlay_from_patch(pf: str, repo_root: str):
+    """{relpath: patched source} of the .py files a unified diff touches, computed on scratch copies of those files (never in /repo)."""
+    import re
+    import shutil
+    import subprocess
+    import tempfile
+
+    files = sorted({m.group(1) for ln in open(pf, encoding="utf-8", errors="replace") for m in [re.match(r"^(?:\+\+\+ b|--- a)/(.*)$", ln.rstrip("\n"))] if m})
+    tmp = tempfile.mkdtemp(prefix="ov_")
+    try:
+        for f in files:
+            src = os.path.join(repo_root, f)
+            if os.path.exists(src):
+                os.makedirs(os.path.dirname(os.path.join(tmp, f)), exist_ok=True)
+                shutil.copy(src, os.path.join(tmp, f))
+        r = subprocess.run(["git", "apply", "--unsafe-paths", "--directory", tmp, os.path.abspath(pf)], cwd=tmp, capture_output=True, text=True)
+        if r.returncode != 0:
+            r = subprocess.run(["patch", "-p1", "-s", "-i", os.path.abspath(pf)], cwd=tmp, capture_output=True, text=True)
+            if r.returncode != 0:
+                return None
+        return {f: open(os.path.join(tmp, f), encoding="utf-8").read() for f in files if f.endswith(".py") and os.path.exists(os.path.join(tmp, f))}
+    finally:
+        shutil.rmtree(tmp, ignore_errors=True)
+
+
 def _apply(repo_root, v: V):
+    if v.patch is not None:
+        try:
+            return overlay_from_patch(v.patch, repo_root) or None
+        except Exception:
+            return None
     overlay = {}
     if v.pos is not None:
         path = os.path.join(repo_root, v.file)
@@ -89,7 +120,8 @@ def _run_variant(args):
     if overlay is None:
         return (v.name, v.kind, "stale", "")
     try:
-        compile(overlay[v.file], v.file, "exec")
+        for f_, src_ in overlay.items():
+            compile(src_, f_, "exec")
     except SyntaxError as e:
         return (v.name, v.kind, "stale", f"variant does not compile: {e}")
     try:
@@ -266,12 +298,8 @@ def seed_variants(prop: str, expected_only: bool = True):
         pf = os.path.join(root, "seeded", sid, "patch.diff")
         if not os.path.exists(pf):
             continue
-        eds = edits_from_patch(pf, reverse=False)
-        if not eds:
-            continue
-        first, rest = eds[0], tuple(eds[1:])
         kind = "break" if prop in e.get("fires", []) else "quiet"
-        out.append(V(f"seed-{sid}", first[0], first[1], first[2], kind=kind, more=rest))
+        out.append(V(f"seed-{sid}", "", "", "", kind=kind, patch=pf))
     return out
 
 
@@ -283,12 +311,10 @@ def neutral_variants(prop: str):
     root = os.path.dirname(os.path.dirname(os.path.abspath(__file__)))
     out = []
     for pf in sorted(glob.glob(os.path.join(root, "neutral", "*", "patch.diff"))):
-        eds = edits_from_patch(pf, reverse=False)
-        if not eds:
+        if os.path.getsize(pf) == 0:
             continue
         nid = os.path.basename(os.path.dirname(pf))
-        first, rest = eds[0], tuple(eds[1:])
-        out.append(V(f"neutral-{nid}", first[0], first[1], first[2], kind="quiet", more=rest))
+        out.append(V(f"neutral-{nid}", "", "", "", kind="quiet", patch=pf))
     return out
 
 
